@@ -360,7 +360,13 @@ func runC44(c *Ctx) {
 		n, isC := constBig(a.Y)
 		return isC && n.Cmp(big.NewInt(1)) == 0 && isQuo(a.X)
 	}
-	remAtom := "((" + desc(L) + " % " + desc(ipp) + ") == 0)"
+	remD := "(" + desc(L) + " % " + desc(ipp) + ")"
+	remAtom := "(" + remD + " == 0)"
+	// the remainder of a non-negative dividend (Len() >= 0) is non-negative:
+	// rem != 0, rem > 0 and rem >= 1 are the same test
+	remNonZero := func(l Lit) bool {
+		return (!l.Pos && atomMatch(remAtom, l.Atom)) || (l.Pos && l.Atom == "(0 < "+remD+")") || (!l.Pos && l.Atom == "("+remD+" < 1)")
+	}
 	emptyAtom := "(" + desc(L) + " == 0)"
 	nRet := 0
 	for _, r := range returnsOf(p2) {
@@ -392,13 +398,13 @@ func runC44(c *Ctx) {
 			switch {
 			case isQuoPlus1(e):
 				sawPlus = true
-				if !(has && !lit.Pos && atomMatch(remAtom, lit.Atom)) {
+				if !(has && remNonZero(lit)) {
 					okAll = false
 					detail += "Len/ipp+1 selected under " + lit.String() + "; "
 				}
 			case isQuo(e):
 				sawPlain = true
-				if !(has && lit.Pos && atomMatch(remAtom, lit.Atom)) {
+				if !(has && remNonZero(Lit{lit.Atom, !lit.Pos})) {
 					okAll = false
 					detail += "Len/ipp selected under " + lit.String() + "; "
 				}
